@@ -533,7 +533,7 @@ def c04(cx):
     # (d) survival under the sessions of the other families (valid traffic, odd corners included: result / parameter
     #     format lists that are neither empty, single nor complete): no verdict on what is answered - that belongs
     #     to those properties - only that the process stays alive and no connection is left hanging
-    for fam in ["C06", "C07", "C08", "C13", "C09", "C05", "C19"]:
+    for fam in ["C06", "C07", "C08", "C13", "C09", "C05", "C19", "C11", "C12"]:
         b = gen_random(cx, fam, 1500 if thorough else 150, tag="surv-" + fam, extra=["-odd"])
         files.append(b)
         trace, crash = play(cx, b, "surv-" + fam, extra=["-proj", fam])
@@ -560,7 +560,7 @@ def c04(cx):
                   "count bombs (65535 announced codes / parameters / types, 2^31-byte parameter, gigabyte headers), hostile "
                   "binary COPY streams read through the library's row reader, direct fuzzing of ParseParameters and "
                   "Parameter.Scan: validated against Trace_Robust (process alive, connection closed after its input ends, "
-                  "allocation bound, helpers return, probe served exactly as usual). (d) random sessions of seven other families "
+                  "allocation bound, helpers return, probe served exactly as usual). (d) random sessions of nine other families (TLS sessions under several TLS configurations and start-up packets among them) "
                   "(odd format-code lists included) judged for survival only. A crash of the server kills the harness "
                   "process and is reported with the input that caused it.",
                   ASSUME_CONN + ["waits are bounded (10 s) only to detect a wedged connection"])
